@@ -40,7 +40,7 @@ def gen_cases(tier, seed):
             for t in ("eof", "fin"):
                 cases.append({"t": t, "N": N, "ivl": ivl, "size": size, "recover": None, "other_entity": True})
                 cases.append({"t": t, "N": N, "ivl": ivl, "size": size, "recover": None, "prev_ivl": ivl * 5})
-                cases.append({"t": t, "N": N, "ivl": ivl, "size": size, "recover": None, "prev_ivl": ivl / 5})
+                cases.append({"t": t, "N": N, "ivl": ivl, "size": size, "recover": None, "prev_ivl": max(0.001, ivl / 5)})
             for j in range(1, N):
                 for order in ("before_idle", "after_idle"):
                     cases.append({"t": "fin", "N": N, "ivl": ivl, "size": size, "recover": [j, order, "phase1"]})
